@@ -44,6 +44,7 @@ type Params struct {
 	Icpt       int
 	IcptPanic  int // >0: the consumer interceptor at this (1-based) position panics after counting itself
 	CloseAny   bool
+	ESlow      bool // the application reads Errors() only after it has asked for shutdown (and then with a delay)
 	AsyncOnly  bool // closeany: consumer and client are closed right after AsyncClose of the partition consumers
 	Move       bool
 	Append     bool
@@ -67,7 +68,7 @@ func Parse(v url.Values) (*Params, error) {
 	p := &Params{N: atoi(v, "n", 3), Cuts: atoi(v, "cuts", 0), Codec: atoi(v, "codec", 1), Ctl: atoi(v, "ctl", 0) == 1,
 		Start: v.Get("start"), FetchSz: atoi(v, "fsz", 0), FetchMax: atoi(v, "fmax", 0), BPF: atoi(v, "bpf", 0), Buf: atoi(v, "buf", 0), NParts: atoi(v, "np", 1),
 		NBrokers: atoi(v, "nb", 1), Slow: atoi(v, "slow", 0) == 1, RC: v.Get("iso") == "rc", AbOrder: atoi(v, "abo", 0), Icpt: atoi(v, "icpt", 0), IcptPanic: atoi(v, "icptpanic", 0),
-		CloseAny: atoi(v, "closeany", 0) == 1, AsyncOnly: atoi(v, "aclose", 0) == 1, Move: atoi(v, "move", 0) == 1, Append: atoi(v, "app", 0) >= 1, AppendPart: max(atoi(v, "app", 0)-1, 0) % 2, AppendMode: atoi(v, "app", 0), Base: int64(atoi(v, "base", 0))}
+		CloseAny: atoi(v, "closeany", 0) == 1, ESlow: atoi(v, "eslow", 0) == 1, AsyncOnly: atoi(v, "aclose", 0) == 1, Move: atoi(v, "move", 0) == 1, Append: atoi(v, "app", 0) >= 1, AppendPart: max(atoi(v, "app", 0)-1, 0) % 2, AppendMode: atoi(v, "app", 0), Base: int64(atoi(v, "base", 0))}
 	if p.Start == "" {
 		p.Start = "old"
 	}
@@ -363,6 +364,7 @@ func (i *icpt) OnConsume(m *sarama.ConsumerMessage) {
 }
 
 type rig struct {
+	errGo     chan struct{} // eslow: closed when the application starts reading Errors()
 	p         *Params
 	c         *gx.Ctl
 	cl        *simkafka.Cluster
@@ -386,7 +388,7 @@ type rig struct {
 }
 
 func run(c *gx.Ctl, p *Params) *gx.Outcome {
-	r := &rig{p: p, c: c, icptLog: map[string]int{}}
+	r := &rig{p: p, c: c, icptLog: map[string]int{}, errGo: make(chan struct{})}
 	cl := simkafka.New(c)
 	r.cl = cl
 	for b := 1; b <= p.NBrokers; b++ {
@@ -511,6 +513,9 @@ func run(c *gx.Ctl, p *Params) *gx.Outcome {
 				}
 			}()
 			go func() {
+				if r.p.ESlow {
+					<-r.errGo
+				}
 				for e := range pc.Errors() {
 					r.mu.Lock()
 					st.errs = append(st.errs, e.Err.Error())
@@ -745,6 +750,12 @@ func (r *rig) doClose() {
 				r.mu.Unlock()
 			}(st)
 			st.pc.AsyncClose()
+		}
+		if r.p.ESlow {
+			// ... and only now, after a while, turns to the errors channel: whatever the consumer still had to report was
+			// waiting for a reader while the shutdown went on
+			time.Sleep(200 * time.Millisecond)
+			close(r.errGo)
 		}
 		if r.p.AsyncOnly {
 			// the application asks the partition consumers to shut down (and keeps draining them) and closes consumer and
